@@ -183,3 +183,39 @@ pub fn c18_overlaps_in_rows() {
     }
     kani::cover!(true);
 }
+
+/// get_row_index: position of constraint row (row_range.start + k) inside one column's sorted row list,
+/// None iff that row has no structural entry there
+#[kani::proof]
+#[kani::unwind(8)]
+pub fn c18_get_row_index() {
+    let rows: [usize; 5] = kani::any();
+    kani::assume(rows[0] < rows[1] && rows[1] < rows[2] && rows[2] < rows[3] && rows[3] < rows[4] && rows[4] < 12);
+    let cs: usize = kani::any();
+    let ce: usize = kani::any();
+    kani::assume(cs <= ce && ce <= 5);
+    let start: usize = kani::any();
+    let k: usize = kani::any();
+    kani::assume(start <= 6 && k <= 6);
+    let r = ch::get_row_index(k, &rows, start..(start + 7), cs..ce);
+    let want = start + k;
+    let mut found = 5;
+    let mut i = 0;
+    while i < 5 {
+        if i >= cs && i < ce && rows[i] == want {
+            found = i;
+        }
+        i += 1;
+    }
+    // the code treats the column range 0..0 as "no entries" (documented special case)
+    if cs == 0 && ce == 0 {
+        assert!(r.is_none(), "empty_column_range_has_no_row");
+    } else if found < 5 {
+        assert!(r == Some(found), "present_row_is_found_at_its_position");
+    } else {
+        assert!(r.is_none(), "absent_row_gives_none");
+    }
+    kani::cover!(found < 5 && start == 0 && cs == 0 && rows[0] == 0, "cone is first and the column is dense from row 0");
+    kani::cover!(found < 5 && start > 0 && cs > 0, "cone after other rows");
+    kani::cover!(found == 5 && cs < ce, "row absent");
+}
